@@ -173,6 +173,18 @@ def exec (cc : CharClasses) (line : String) : String :=
     | some sel =>
       let cfg : ScanCfg := { lang := sel.lang, cc := cc, sep := harnessSep, thrLt := CC.thrLtBits (CC.parseHex thr) }
       runScan cfg (parseToks toks)
+  | ["scanp", lc, thr, toks] =>
+    -- tokens whose hint methods are the trait's defaults: no separation hint, never "not a number part"
+    match selLang lc with
+    | none => "no-lang"
+    | some sel =>
+      let cfg : ScanCfg := { lang := sel.lang, cc := cc, sep := noSep, thrLt := CC.thrLtBits (CC.parseHex thr) }
+      let ts := (parseToks toks).map (fun t => { t with nan := false })
+      match findNumbers cfg ts with
+      | .error _ => "PANIC"
+      | .ok occs =>
+        let o := ",".intercalate (occs.map showOcc)
+        o ++ "|" ++ o ++ "|" ++ showBool (DS.new.isEmpty)
   | ["occ", lc, thr, text] =>
     match selLang lc with
     | none => "no-lang"
